@@ -1108,8 +1108,11 @@ func TestCheck(t *testing.T) {
 			var wrap struct {
 				Config config `json:"config"`
 			}
-			if mon.ReplayCase(p, &wrap) != nil {
+			var raw config
+			if mon.ReplayCase(p, &wrap) != nil && wrap.Config.Mode != "" {
 				runConcurrent(r, wrap.Config)
+			} else if mon.ReplayCase(p, &raw) != nil && raw.Mode != "" {
+				runConcurrent(r, raw)
 			}
 		}
 		r.Nontrivial("replay-a")
